@@ -134,8 +134,10 @@ def structObj (fs : List Field) : ObjSchema :=
   { props := vis.map fun (n, f) => (n, f.ty.schema),
     required := (vis.filter fun (_, f) => f.required).map (·.1) }
 
+/-- embedded structs, in order; an embedded field tagged `json:"-"` is not part of the payload (an
+    unexported embedded struct type still is: its exported fields are promoted) -/
 def embeddedOf (fs : List Field) : List String :=
-  (fs.filter fun f => f.embedded && f.ty != .prim "error").flatMap fun f => (f.ty.refs.map (·.2))
+  (fs.filter fun f => f.embedded && f.ty != .prim "error" && f.jsonTag != some "-").flatMap fun f => (f.ty.refs.map (·.2))
 
 def enumType (base : String) : String := match primSchema base with | .ty t _ => t | _ => "object"
 
